@@ -144,7 +144,6 @@ pub struct Compiler {
     symbols: SymbolTable,
     constants: Vec<Object>,
     instructions: Vec<u8>,
-    last_instruction: Option<OpCode>,
     loop_contexts: Vec<LoopContext>,
     gc: GC,
 }
@@ -176,7 +175,6 @@ impl Compiler {
             symbols: SymbolTable::new(),
             instructions: Vec::new(),
             constants: Vec::new(),
-            last_instruction: None,
             loop_contexts: Vec::new(),
             gc: GC::new(),
         }
@@ -208,7 +206,6 @@ impl Compiler {
     #[inline]
     fn emit_opcode(&mut self, op: OpCode) {
         self.instructions.push(op as u8);
-        self.last_instruction = Some(op);
     }
 
     #[inline]
@@ -232,30 +229,41 @@ impl Compiler {
         self.instructions[idx + 2] = ((v >> 8) & 0xFF) as u8;
     }
 
-    #[inline]
-    fn last_instruction_is(&self, op: OpCode) -> bool {
-        self.last_instruction == Some(op)
-    }
-
-    #[inline]
-    fn remove_last_instruction(&mut self) {
-        debug_assert!(self.last_instruction.is_some());
-        debug_assert_eq!(self.last_instruction.unwrap().operands().len(), 0);
-        self.instructions.pop();
-        self.last_instruction = None;
-    }
-
+    /// Compiles a block that is used as a statement: this leaves nothing on the stack
     fn compile_block_statement(&mut self, stmts: &[Stmt]) -> Result<(), Error> {
-        // if block statement does not contain any other statements or expressions
-        // simply push a NULL onto the stack
-        if stmts.is_empty() {
-            self.emit_opcode(OpCode::Null);
-            return Ok(());
-        }
-
         self.symbols.enter_scope();
         for s in stmts {
             self.compile_statement(s)?;
+        }
+        self.symbols.leave_scope();
+        Ok(())
+    }
+
+    /// Compiles a block that is used as a value (the body of an if, while or function).
+    /// This leaves exactly one value on the stack: the value of the last statement if that is an expression (or a
+    /// block ending in one) and NULL otherwise.
+    fn compile_block_expression(&mut self, stmts: &[Stmt]) -> Result<(), Error> {
+        let (last, rest) = match stmts.split_last() {
+            Some(parts) => parts,
+            None => {
+                self.emit_opcode(OpCode::Null);
+                return Ok(());
+            }
+        };
+
+        self.symbols.enter_scope();
+        for s in rest {
+            self.compile_statement(s)?;
+        }
+        match last {
+            Stmt::Expr(expr) => self.compile_expression(expr)?,
+            Stmt::Block(stmts) => self.compile_block_expression(stmts)?,
+            // control never reaches the end of the block after these
+            Stmt::Return(_) | Stmt::Break | Stmt::Continue => self.compile_statement(last)?,
+            Stmt::Let(..) => {
+                self.compile_statement(last)?;
+                self.emit_opcode(OpCode::Null);
+            }
         }
         self.symbols.leave_scope();
         Ok(())
@@ -537,11 +545,7 @@ impl Compiler {
                 self.emit_opcode(OpCode::JumpIfFalse);
                 self.emit_u16(JUMP_PLACEHOLDER);
 
-                self.compile_block_statement(consequence)?;
-
-                if self.last_instruction_is(OpCode::Pop) {
-                    self.remove_last_instruction();
-                }
+                self.compile_block_expression(consequence)?;
 
                 let pos_jump = self.instructions.len();
                 self.emit_opcode(OpCode::Jump);
@@ -553,10 +557,7 @@ impl Compiler {
                 );
 
                 if let Some(alternative) = alternative {
-                    self.compile_block_statement(alternative)?;
-                    if self.last_instruction_is(OpCode::Pop) {
-                        self.remove_last_instruction();
-                    }
+                    self.compile_block_expression(alternative)?;
                 } else {
                     self.emit_opcode(OpCode::Null);
                 }
@@ -576,13 +577,7 @@ impl Compiler {
                 self.emit_opcode(OpCode::JumpIfFalse);
                 self.emit_u16(JUMP_PLACEHOLDER);
                 self.emit_opcode(OpCode::Pop);
-                self.compile_block_statement(body)?;
-
-                if self.last_instruction_is(OpCode::Pop) {
-                    self.remove_last_instruction();
-                } else {
-                    self.emit_opcode(OpCode::Null);
-                }
+                self.compile_block_expression(body)?;
 
                 // emit jump instruction to loop condition
                 self.emit_opcode(OpCode::Jump);
@@ -623,13 +618,18 @@ impl Compiler {
 
                 let pos_start_function = self.instructions.len();
 
-                self.compile_block_statement(body)?;
-
-                if self.last_instruction_is(OpCode::Pop) {
-                    self.remove_last_instruction();
-                    self.emit_opcode(OpCode::ReturnValue);
-                } else if !self.last_instruction_is(OpCode::ReturnValue) {
-                    self.emit_opcode(OpCode::Return);
+                match body.last() {
+                    // every path through the body already ends in a return
+                    Some(Stmt::Return(_)) => self.compile_block_expression(body)?,
+                    // no value to return
+                    None | Some(Stmt::Let(..)) => {
+                        self.compile_block_statement(body)?;
+                        self.emit_opcode(OpCode::Return);
+                    }
+                    _ => {
+                        self.compile_block_expression(body)?;
+                        self.emit_opcode(OpCode::ReturnValue);
+                    }
                 }
 
                 self.change_jump_operand_at(pos_jump, self.instructions.len().try_into().unwrap());
